@@ -568,7 +568,7 @@ def r_ptb_lines(repo, rep, R='R20.4'):
             bad.append('a line that is neither blank nor a heading is not parsed when %s' % '; '.join('%s%s' % ('' if pol else 'not ', show(c)[:40]) for c, pol, _ in st.conds[-2:]))
         elif not all(p_[2] and is_line(p_[2][0]) for p_ in parses):
             bad.append('the line parser is given %s, not the line' % show(parses[0][2][0] if parses[0][2] else C(None))[:60])
-    if judged < 3:
+    if judged < 2:      # (heading / line to parse; the blank test may sit in a helper that hands the lines over)
         raise AnalysisError('%s: read_ptb: the line loop was not recognised' % RD)
     rep.check(not bad, R, w, 'read_ptb:line-by-line', 'every line that is neither blank nor a heading goes to the line parser by itself (%d paths)' % judged,
               '%s -- an incomplete line is not rejected: it is held back and swallows the lines that follow' % '; '.join(sorted(set(bad))[:2]))
